@@ -29,6 +29,8 @@ pub fn run_property(ctx: &Ctx) -> Option<Report> {
         "C01" => Some(p_short::run_c01(ctx)),
         "C02" => Some(p_short::run_c02(ctx)),
         "C03" => Some(p_short::run_c03(ctx)),
+        #[cfg(feature = "hm_serde")]
+        "C04" | "C09" if ctx.config == "serde" => Some(p_serde::run_serde_part(ctx, &ctx.prop)),
         "C04" => Some(p_ints::run_ints(ctx, p_ints::Mode::C04)),
         "C05" => Some(p_ints::run_ints(ctx, p_ints::Mode::C05)),
         "C06" => Some(p_factory::run_c06(ctx)),
@@ -60,6 +62,8 @@ pub fn replay_case(prop: &str, sub: &str, case: &Value) -> Option<CheckResult> {
         "C01" => p_short::replay_c01(sub, case),
         "C02" => p_short::replay_c02(sub, case),
         "C03" => p_short::replay_c03(sub, case),
+        #[cfg(feature = "hm_serde")]
+        "C04" | "C09" if sub.starts_with("serde/") => p_serde::replay_c19(sub, case),
         "C04" => p_ints::replay_ints(p_ints::Mode::C04, sub, case),
         "C05" => p_ints::replay_ints(p_ints::Mode::C05, sub, case),
         "C06" => p_factory::replay_c06(sub, case),
